@@ -171,6 +171,9 @@ def run(pid, tier):
         for k, (how, fs) in enumerate([("commands", False), ("sequences", pid == "C06"), ("sequence_and_commands", pid != "C05")]):
             scenarios.append(runlib.repeated_commands_scenario(chk.seed * 43 + k, how, fs))
         if pid == "C05":
+            # one command directory shared by targets of which only one defines the command (by an explicit path)
+            for k in range(4 if tier == "quick" else 24):
+                scenarios.append(runlib.shared_dir_definitions_scenario(chk.seed * 47 + k, "all" if k % 2 == 0 else "targets"))
             # very wide groups: the run's grouping must still be analyze's grouping, every member started once
             scenarios.append(runlib.wide_scenario(150, chk.seed, mode="all"))
             scenarios.append(runlib.wide_scenario(131, chk.seed + 1, mode="changed"))
